@@ -79,6 +79,13 @@ Theorem C10_second_call_returns_zero_and_changes_nothing : forall v ts ts' n,
 Proof. exact orient_idempotent. Qed.
 Print Assumptions C10_second_call_returns_zero_and_changes_nothing.
 
+(* if the mesh is closed, the returned mesh encloses a non-negative volume (one closed component: normals point outward) *)
+Theorem C10_closed_result_encloses_nonnegative_volume : forall v ts ts' n,
+  Forall distinct_tri ts -> ts <> [] -> manifold ts -> shares_edge ts -> orientable ts -> is_closed ts = true ->
+  orient Rops v ts = Ok (ts', n) -> (0 <= sumK Rops (map (tri_spat Rops v) ts') / 6)%R.
+Proof. exact orient_closed_volume_nonneg. Qed.
+Print Assumptions C10_closed_result_encloses_nonnegative_volume.
+
 (* the hypotheses are met by concrete meshes (here: a tetrahedron with one flipped triangle followed by a pillow whose two
    triangles run the same way -- the input on which the unrepaired code raised ValueError, finding F24) *)
 Definition c10_witness : list tri := [(0, 2, 1); (0, 3, 1); (1, 2, 3); (2, 0, 3); (4, 5, 6); (4, 5, 6)].
